@@ -244,6 +244,98 @@ def check_stdin(case, ctx):
         shutil.rmtree(tmp, ignore_errors=True)
 
 
+@st.composite
+def interleave_case(draw):
+    container = draw(st.sampled_from(["stream", "stream", "avro"]))
+    return {"container": container, "codec": draw(st.sampled_from(list(CODECS))),
+            "seqs": [draw(gen.sequence_spec(max_len=6, max_desc=2, grouped=False)) if container == "stream" else draw(avro_seq())
+                     for _ in range(draw(st.integers(2, 3)))],
+            "ways": [draw(st.sampled_from(["path", "hidden-name", "bytesio", "buffered-file"])) for _ in range(3)],
+            "big": draw(st.booleans())}
+
+
+def check_interleaved(case, ctx):
+    """Several sources of one codec open at the same time and read alternately must each return what they return
+    when read alone (readers must not share decoder state)."""
+    from flow.record import RecordDescriptor, RecordReader, RecordWriter
+
+    container, codec = case["container"], case["codec"]
+    ext, _ = CODECS[codec]
+    ctx.cls("cell:%s/%s" % (container, codec))
+    tmp = ctx.fresh_dir()
+    base = "%s/%s/interleaved" % (container, codec)
+    try:
+        urls, datas, paths = [], [], []
+        filler = RecordDescriptor("t/filler", [("bytes", "blob")])
+        for i, seq in enumerate(case["seqs"]):
+            built = impl(lambda: [gen.build_any_record(m) for m in seq])
+            if not built.ok:
+                return
+            name = ("s%d.records" % i if container == "stream" else "s%d.avro" % i) + ext
+            p = os.path.join(tmp, name)
+            url = p if container == "stream" else "avro://" + p
+            w = RecordWriter(url)
+            for r in built.value:
+                w.write(r)
+            if case["big"] and container == "stream":
+                # enough data that a reader cannot have buffered the whole source before the next one is opened
+                import hashlib
+
+                for k in range(40):
+                    blob = b"".join(hashlib.sha256(b"%d-%d-%d" % (i, k, j)).digest() for j in range(64))
+                    w.write(filler(blob))
+            w.flush()
+            w.close()
+            urls.append(url)
+            paths.append(p)
+            datas.append(open(p, "rb").read())
+        alone = []
+        for url in urls:
+            _, recs = read_all(lambda: RecordReader(url))
+            alone.append([observe(r) for r in recs])
+        ctx.nontriv()
+
+        def open_way(i):
+            way = case["ways"][i % len(case["ways"])]
+            if way == "path":
+                return RecordReader(urls[i])
+            if way == "hidden-name":
+                hp = os.path.join(tmp, "hidden%d.bin" % i)
+                shutil.copy(paths[i], hp)
+                return RecordReader(("avro://" if container == "avro" else "") + hp)
+            if way == "bytesio":
+                return RecordReader(fileobj=io.BytesIO(datas[i]))
+            return RecordReader(fileobj=open(paths[i], "rb"))
+
+        def run():
+            readers = [open_way(i) for i in range(len(urls))]
+            its = [iter(r) for r in readers]
+            outs = [[] for _ in urls]
+            live = list(range(len(urls)))
+            while live:
+                for i in list(live):
+                    try:
+                        outs[i].append(observe(next(its[i])))
+                    except StopIteration:
+                        live.remove(i)
+            for r in readers:
+                try:
+                    r.close()
+                except Exception:
+                    pass
+            return outs
+
+        res = impl(run)
+        if not res.ok:
+            raise Violation(base + "/raised", "reading %d open %s sources alternately raised %r" % (len(urls), codec, res), detail=res.type)
+        for i, (a, b) in enumerate(zip(alone, res.value)):
+            if a != b:
+                raise Violation(base + "/records-differ", "source %d read alternately with the others differs from reading it "
+                                "alone: %s" % (i, diff(tuple(a), tuple(b))))
+    finally:
+        shutil.rmtree(tmp, ignore_errors=True)
+
+
 SIGS = [b"\x1f\x8b", b"BZh", b"\x04\x22\x4d\x18", b"\x28\xb5\x2f\xfd", b"Obj", b"Obj\x01", b"<", b"<test/record a=1>\n"]
 
 
@@ -323,5 +415,6 @@ def parts(tier):
         Part("matrix", check_matrix, strategy=matrix_case(), examples=(40, 800)),
         Part("stdin-cells", check_stdin, cases=stdin_cells, exhaustive=True),
         Part("stdin", check_stdin, strategy=matrix_case(), examples=(1, 25)),
+        Part("interleaved", check_interleaved, strategy=interleave_case(), examples=(20, 400)),
         Part("garbage", check_garbage, strategy=garbage_case(), examples=(100, 2000)),
     ]
